@@ -107,21 +107,35 @@ func readRecordHeaderV3(r io.ByteReader) (payloadSizeUncompressed uint64, payloa
 	return payloadSizeUncompressed, payloadSizeCompressed, recordNil == 1, nil
 }
 
-// readHeaderUvarint reads one varint field of a v4 record header. A field that does not decode into 64 bits cannot have
-// been produced by the writer (marker bytes inside a payload followed by 0xff bytes look like that): such a header does
-// not verify, which is reported like a checksum mismatch so that SeekNext carries on scanning.
+// readHeaderUvarint reads one varint field of a v4 record header and accepts only what the writer produces: a value that
+// decodes into 64 bits (marker bytes inside a payload followed by 0xff bytes do not) in its shortest encoding. The
+// header checksum covers the bytes of the fields before it but not how they are framed: a continuation bit set on the
+// last byte of a field pulls the next byte into it, and when that byte is zero the value is the same, every later field
+// moves by one byte and the checksum is taken from the payload. Such a header does not verify, which is reported like a
+// checksum mismatch so that SeekNext carries on scanning.
 func readHeaderUvarint(reader *checksumByteReader) (uint64, error) {
 	start := reader.Count()
 	v, err := binary.ReadUvarint(reader)
-	if err != nil && reader.Count()-start >= binary.MaxVarintLen64 {
-		return 0, fmt.Errorf("%w: %v", HeaderChecksumMismatchErr, err)
+	if err != nil {
+		if reader.Count()-start >= binary.MaxVarintLen64 {
+			return 0, fmt.Errorf("%w: %v", HeaderChecksumMismatchErr, err)
+		}
+		return 0, err
 	}
-	return v, err
+
+	var canonical [binary.MaxVarintLen64]byte
+	if reader.Count()-start != binary.PutUvarint(canonical[:], v) {
+		return 0, fmt.Errorf("%w: header field [%x] is not stored in its shortest encoding", HeaderChecksumMismatchErr, v)
+	}
+
+	return v, nil
 }
 
-func readRecordHeaderV4(reader *checksumByteReader) (payloadSizeUncompressed uint64, payloadSizeCompressed uint64, recordNilBool bool, err error) {
+// readRecordHeaderV4 reads and verifies a record header. compressed tells whether the file has a compression type: in a
+// file without one the writer stores zero as compressed size, anything else is a damaged header.
+func readRecordHeaderV4(reader *checksumByteReader, compressed bool) (payloadSizeUncompressed uint64, payloadSizeCompressed uint64, recordNilBool bool, err error) {
 	reader.Reset()
-	magicNumber, err := binary.ReadUvarint(reader)
+	magicNumber, err := readHeaderUvarint(reader)
 	if err != nil {
 		return 0, 0, false, err
 	}
@@ -144,24 +158,19 @@ func readRecordHeaderV4(reader *checksumByteReader) (payloadSizeUncompressed uin
 		return 0, 0, false, err
 	}
 
+	if !compressed && payloadSizeCompressed != 0 {
+		return 0, 0, false,
+			fmt.Errorf("%w: compressed size [%d] in a file without compression", HeaderChecksumMismatchErr, payloadSizeCompressed)
+	}
+
 	actualChecksum, err := reader.Checksum()
 	if err != nil {
 		return 0, 0, false, err
 	}
 
-	checksumStart := reader.Count()
 	expectedChecksum, err := readHeaderUvarint(reader)
 	if err != nil {
 		return 0, 0, false, err
-	}
-
-	// The checksum covers the bytes of all other header fields, but not its own encoding. A varint that is longer than
-	// necessary (a flipped continuation bit that pulls the first payload byte into the header) decodes to the same
-	// number, so only the shortest encoding, which is what the writer produces, is accepted.
-	var canonical [binary.MaxVarintLen64]byte
-	if reader.Count()-checksumStart != binary.PutUvarint(canonical[:], expectedChecksum) {
-		return 0, 0, false,
-			fmt.Errorf("%w: checksum [%x] is not stored in its shortest encoding", HeaderChecksumMismatchErr, expectedChecksum)
 	}
 
 	if actualChecksum != expectedChecksum {
